@@ -437,9 +437,6 @@ end copies
 section transforms
 variable {α : Type} [LinearOrder α] [Add α] [Sub α] [OfNat α 0]
 
-/-- a transform whose three vectors are three different objects of the world -/
-def Trans.wf (t : Trans) : Prop := t.bc ≠ t.params ∧ t.bc ≠ t.constants
-
 /-- READ-ONLY USES: forward, backward, jacobian, params_sample, params_logprior, printing leave everything the
 parameter vector and the constant vector show — values, bounds, defaults, names, flags, hit — exactly as it
 was (the only write, for the classes that own an inner BoxCox2, goes to that inner object's fresh array) -/
